@@ -89,6 +89,7 @@ def render(src, cfg, bindings):
     if not o.ok:
         return ("compile-exc", o.exc_name)
     env = values.env(bindings)
+    env["rec"], env["boom"] = exprs.make_callables([])
     o = run(o.value.render, **env)
     if not o.ok:
         return ("exc", o.exc_name)
